@@ -41,7 +41,8 @@ def predict_update(st, rows, vals):
         fire = "must" if changed - {"F"} else "mustnot"
       else:
         dep_changed = bool(set(deps) & changed)
-        dep_written = bool(set(deps) & (written | ({"F"} if "A" in changed else set())))
+        # F is recomputed in a row whenever A is written there (even with an unchanged value in a bulk update)
+        dep_written = bool(set(deps) & (written | ({"F"} if "A" in written else set())))
         fire = "must" if dep_changed else ("either" if dep_written else "mustnot")
       if explicit and not selfdep:
         out[(r, c)] = ("set", vals[c][i])
@@ -72,7 +73,8 @@ def judge_update(rows, vals):
     elif p == "either":
       ok = after in (before, inc)
     elif p[0] == "set":
-      ok = after == p[1]
+      # an explicit value equal to the current one is trimmed from the action, i.e. not supplied
+      ok = after == p[1] or (p[1] == before and after == inc)
     else:
       ok = after in (p[1], (p[1] or 0) + 1)
     if not ok:
